@@ -1524,9 +1524,12 @@ class ExtendedToOriginalDecorator:
         try:
             outcome = getattr(self.decorated, "addUnexpectedSuccess", None)
             if outcome is None:
+                # Not every test object has fail()/failureException (e.g.
+                # PlaceHolder): degrade to a failure without relying on them.
+                failure = getattr(test, "failureException", None) or AssertionError
                 try:
-                    test.fail("")
-                except test.failureException:
+                    raise failure("")
+                except failure:
                     return self.addFailure(test, sys.exc_info())
             if details is not None:
                 try:
